@@ -154,6 +154,17 @@ class DS:
         self.config = Cfg({"filtering": dict(copy.deepcopy(DEFAULTS))})
         self.identifier = "mm-model"
         self.format = "dict"
+        #: features whose data have been read so far (area_um stands for a
+        #: lazily computed / basin feature that is not loaded at first)
+        self.loaded = set(self.data) - {"area_um"}
+
+    @property
+    def features_loaded(self):
+        return sorted(self.loaded & set(self.data))
+
+    @property
+    def features_innate(self):
+        return sorted(self.data)
 
     @property
     def features_scalar(self):
@@ -169,6 +180,7 @@ class DS:
     def __getitem__(self, feat):
         if feat not in self.data:
             raise L.ModelRaise(L.ExcValue("KeyError", (feat,)))
+        self.loaded.add(feat)
         return VArr(list(self.data[feat]), dtype="float")
 
     def __contains__(self, feat):
